@@ -329,6 +329,12 @@ def replay_kani(job, scratch, prop):
             rc, o, _ = run_cmd(cmd, crate, 900, 16, env=env)
             failedfns = set(re.findall(r"^test \S*?(kani_concrete_playback_\w+) \.\.\. FAILED", o, re.M))
             okfns = set(re.findall(r"^test \S*?(kani_concrete_playback_\w+) \.\.\. ok", o, re.M))
+            # a test that dies inside Kani's playback library (value list exhausted: "Not enough det vals found",
+            # or a violated kani::assume) did not replay the trace at all: not a reproduction
+            bogus = playback_internal_failures(o)
+            if failedfns & bogus:
+                res["detail_" + profile] = "%d generated test(s) could not be replayed (failure inside Kani's playback library)" % len(failedfns & bogus)
+            failedfns -= bogus
             if not failedfns and not okfns:
                 res["detail_" + profile] = "playback did not run: " + " | ".join(o.strip().splitlines()[-8:])
             for m in tests:
@@ -337,6 +343,17 @@ def replay_kani(job, scratch, prop):
         return res
     finally:
         shutil.rmtree(work, ignore_errors=True)
+
+
+def playback_internal_failures(o):
+    """names of playback tests whose panic originates in library/kani (not in the harness or the crate)"""
+    bad = set()
+    for m in re.finditer(r"^---- \S*?(kani_concrete_playback_\w+) stdout ----\n(.*?)(?=^---- |\Z)", o, re.M | re.S):
+        body = m.group(2)
+        pm = re.search(r"panicked at ([^\n]*?):\d+:\d+:\n([^\n]*)", body)
+        if pm and (pm.group(1).startswith("library/kani") or "/library/kani/src/" in pm.group(1) or "det vals" in pm.group(2) or "kani::assume" in pm.group(2)):
+            bad.add(m.group(1))
+    return bad
 
 
 def write_replay(prop, job, rep, failed):
@@ -376,7 +393,7 @@ def do_replay_file(prop, path, scratch):
         cmd += ["--", "kani_concrete_playback", "--test-threads", "1"]
         rc, o, _ = run_cmd(cmd, crate, 900, 16, env={"CARGO_TARGET_DIR": os.path.join(work, "tp")})
         say(o[-6000:])
-        failedfns = re.findall(r"^test \S*?(kani_concrete_playback_\w+) \.\.\. FAILED", o, re.M)
+        failedfns = set(re.findall(r"^test \S*?(kani_concrete_playback_\w+) \.\.\. FAILED", o, re.M)) - playback_internal_failures(o)
         if failedfns:
             say("REPLAY reproduced: %d generated test(s) fail on the native build" % len(failedfns))
             return 1
